@@ -16,6 +16,7 @@ import (
 	"github.com/NethermindEth/juno/core/felt"
 	"github.com/NethermindEth/juno/db"
 	"github.com/NethermindEth/juno/db/memory"
+	"github.com/NethermindEth/juno/pruner"
 	"verif/harness/lib"
 )
 
@@ -107,6 +108,7 @@ type diskObs struct {
 	SnapBits              string
 	Init, InitBits        string
 	Head, Above           string // blkobs of the head block and of the number above it
+	Floor                 string // OldestRetainedBlock
 }
 
 func persistedWindows(store db.KeyValueStore) []uint64 {
@@ -170,6 +172,10 @@ func (t *trace) observeDisk(store db.KeyValueStore, full bool) diskObs {
 	} else {
 		o.Head = t.blkObs(store, 0)
 		o.Above = t.blkObs(store, 1)
+	}
+	o.Floor = "-"
+	if f, err := pruner.OldestRetainedBlock(store); err == nil {
+		o.Floor = fmt.Sprint(f)
 	}
 	los := persistedWindows(store)
 	if len(los) > 0 {
@@ -321,19 +327,15 @@ func (t *trace) script() (lines, want []string) {
 		}
 		add("base "+snap, "ok")
 	}
-	// a pruning node initialises its filter with pruner.InitializeRunningEventFilter, which the
-	// model does not transcribe: only the disk side is compared there
-	filterToo := !t.sc.Pruning
+	// a pruning node initialises its filter with pruner.InitializeRunningEventFilter: the model's
+	// calls use the plain initialiser, so on a pruning node the filter is brought up with the
+	// pruning-aware one (`touchp`) before every call
+	pr := t.sc.Pruning
+	touch, initc, initb := "touch", "init", "initbits"
+	if pr {
+		touch, initc, initb = "touchp", "initp", "initpbits"
+	}
 	diskChecks := func(o diskObs) {
-		if !filterToo {
-			hn := uint64(0)
-			if o.H != "-" {
-				fmt.Sscan(o.H, &hn)
-			}
-			add(fmt.Sprintf("blkobs %d", hn), o.Head)
-			add(fmt.Sprintf("blkobs %d", hn+1), o.Above)
-			return
-		}
 		for _, lo := range strings.Split(o.Wins, ",") {
 			if lo != "-" && lo != "" {
 				add("winbits "+lo, o.WinBits[lo])
@@ -342,9 +344,12 @@ func (t *trace) script() (lines, want []string) {
 		if o.Snap != "-" {
 			add("snapbits", o.SnapBits)
 		}
-		add("init", o.Init)
+		add(initc, o.Init)
 		if o.Init != "err" {
-			add("initbits", o.InitBits)
+			add(initb, o.InitBits)
+		}
+		if pr {
+			add("floor", o.Floor)
 		}
 		hn := uint64(0)
 		if o.H != "-" {
@@ -364,6 +369,9 @@ func (t *trace) script() (lines, want []string) {
 			c := t.crashes[ci]
 			ci++
 			add("save", "ok")
+			if pr && !strings.HasPrefix(st.line, "prune") {
+				add("touchp", "ok")
+			}
 			add(st.line+" "+c.fault, "ok")
 			add("obsd", obsLine(c.disk, "lazy"))
 			diskChecks(c.disk)
@@ -376,18 +384,17 @@ func (t *trace) script() (lines, want []string) {
 		if st.fault != "" {
 			l += " " + st.fault
 		}
+		if pr && !strings.HasPrefix(st.line, "prune") && st.line != "kill" {
+			add("touchp", "ok")
+		}
 		add(l, st.out)
 		if st.quiet {
 			continue
 		}
-		if filterToo {
-			add("touch", "ok")
-			add("obs", obsLine(st.disk, st.mem))
-			if st.mem != "broken" {
-				add("membits", st.memBits)
-			}
-		} else {
-			add("obsd", obsLine(st.disk, "lazy"))
+		add(touch, "ok")
+		add("obs", obsLine(st.disk, st.mem))
+		if st.mem != "broken" {
+			add("membits", st.memBits)
 		}
 		diskChecks(st.disk)
 	}
